@@ -136,6 +136,8 @@ def run_encrypt(world, ex, proto, st, key_bytes, nonce_bytes, message, footer, a
     hdr = run_header_default(world, ex, st, proto)
     me = world.mk('Paseto', header=hdr, payload=adt('Payload', None, message), footer=footer, implicit_assertion=assertion)
     c1 = st.new_cell(me)
+    from . import coreprops as _cp
+    _cp.SELF_BEFORE[id(st)] = me
     f = world.entry(proto, 'enc')
     if p['p'] == 'Local':
         key = sym_key_value(world, proto, key_bytes)
